@@ -698,7 +698,9 @@ mod serde {
             A: SeqAccess<'de>,
         {
             let mut store: Store<I, P, H> = if let Some(size) = seq.size_hint() {
-                Store::with_capacity_and_default_hasher(size)
+                // the hint comes from the input: do not trust it with an
+                // unbounded allocation (serde caps it for `Vec` in the same way)
+                Store::with_capacity_and_default_hasher(size.min(4096))
             } else {
                 Store::with_default_hasher()
             };
